@@ -55,7 +55,10 @@ REMOD_EXCLUDED = {'cross', 'als', 'rand_custom', 'getter', 'show', 'anova_from_f
 class YGen(np.random.Generator):
     """Generator whose every draw is a yield point of the scheduler; the stream is untouched."""
 
+    draws = 0
+
     def _y(self, what):
+        self.draws += 1
         s = SCHED[0]
         if s is not None:
             s.point_current('draw:' + what)
@@ -318,11 +321,20 @@ class Sched:
                 res, exc = run_call(call)
                 cl.in_call = False
                 dg = result_digest(call, ctx, res, exc)
+                if isinstance(ctx.seed_value, YGen) and exc is None and ctx.seed_value.draws == 0 and call.seed_kw \
+                        and spec['entry'] not in ('cross_act', 'ANOVA'):
+                    # a random function that was handed a generator object and returned without a single draw from it
+                    cl.check_failures.append((k, '%s was given a generator object as seed and returned a result without drawing from that object' % spec['entry']))
                 if not call.passthrough and args_digest(call) != args_before:
                     cl.arg_changes.append((k, spec['entry']))
                 cl.results.append((k, dg))
                 if call.check is not None and exc is None:
-                    bad = call.check(res)
+                    try:
+                        bad = call.check(res)
+                    except SimAbort:
+                        raise
+                    except Exception:
+                        bad = None          # the absolute oracle could not be evaluated for these arguments (e.g. non-finite data): no verdict
                     if bad:
                         cl.check_failures.append((k, bad))
                 if not call.passthrough:
